@@ -203,12 +203,12 @@ def apply_resultpath(input, result, path="$"):
             )
         return target
 
-    if input == None:
-        input = {}
     if path == None:
-        return input
+        return input  # Discard the result, even if the raw input is JSON null.
     if path == "$":
         return result
+    if input == None:
+        input = {}
     if path.startswith("$$"):
         """
         The value of "ResultPath" MUST NOT begin with "$$"; i.e. it may not be
